@@ -217,4 +217,48 @@ theorem byteswap_eq_spec' (l : Bits) (f : Fmt) (s e : Option Int) (rep : Bool) (
     rw [← hl] at key spec
     rw [key, spec]
 
+
+theorem byteswap_struct (l : Bits) (f : Fmt) (s e : Option Int) (rep : Bool) (a z : Nat) (sizes : List Nat)
+    (hv : validateSlice l.length s e = .ok (a, z)) (hf : fmtSizes f a z = .ok sizes)
+    (hvalid : rep = true ∨ a + 8 * sizes.sum ≤ z) (htot : 8 * sizes.sum ≠ 0) (k : Nat) (l' : Bits)
+    (h : byteswap l f s e rep = .ok (k, l')) :
+    k = swapCount sizes a z rep ∧
+    l' = l.take a ++ swapRepeat (swapCount sizes a z rep) (8 * sizes.sum) sizes
+          ((l.drop a).take (swapCount sizes a z rep * (8 * sizes.sum)))
+        ++ l.drop (a + swapCount sizes a z rep * (8 * sizes.sum)) := by
+  rw [byteswap_eq_spec' l f s e rep a z sizes hv hf hvalid] at h
+  unfold swapSpec at h
+  simp only [if_neg htot, Except.ok.injEq, Prod.mk.injEq] at h
+  exact ⟨h.1.symm, h.2.symm⟩
+
+theorem byteswap_twice' (l : Bits) (f : Fmt) (s e : Option Int) (rep : Bool) (a z : Nat) (sizes : List Nat)
+    (hv : validateSlice l.length s e = .ok (a, z)) (hf : fmtSizes f a z = .ok sizes)
+    (hvalid : rep = true ∨ a + 8 * sizes.sum ≤ z) (k : Nat) (l' : Bits)
+    (h : byteswap l f s e rep = .ok (k, l')) :
+    byteswap l' f s e rep = .ok (k, l) := by
+  obtain ⟨haz, hzl⟩ := validateSlice_bounds _ _ _ _ _ hv
+  by_cases htot : 8 * sizes.sum = 0
+  · have h' := h
+    rw [byteswap_eq_spec' l f s e rep a z sizes hv hf hvalid] at h'
+    simp only [swapSpec, htot, if_true, Except.ok.injEq, Prod.mk.injEq] at h'
+    obtain ⟨rfl, rfl⟩ := h'
+    exact h
+  · obtain ⟨hk, hl'⟩ := byteswap_struct l f s e rep a z sizes hv hf hvalid htot k l' h
+    subst hk
+    have hkb := swapCount_bound sizes a z rep haz
+    have hl := split3 l a (swapCount sizes a z rep * (8 * sizes.sum))
+    have hpre : (l.take a).length = a := by simp; omega
+    have hmid : ((l.drop a).take (swapCount sizes a z rep * (8 * sizes.sum))).length
+        = swapCount sizes a z rep * (8 * sizes.sum) := by simp; omega
+    have hmid' := swapRepeat_length (swapCount sizes a z rep) (8 * sizes.sum) sizes rfl _ hmid
+    have hlen : l'.length = l.length := by
+      have := congrArg List.length hl
+      rw [hl']
+      simp only [List.length_append] at this ⊢
+      rw [hmid', this]
+    have key := byteswap_decomp (l.take a) _ (l.drop (a + swapCount sizes a z rep * (8 * sizes.sum))) f s e rep a z
+      sizes (by rw [← hl', hlen]; exact hv) hf hvalid htot hpre (hmid'.trans hmid)
+    rw [← hl', swapRepeat_swapRepeat _ _ _ rfl _ hmid, ← hl] at key
+    exact key
+
 end BM.C18
